@@ -77,6 +77,14 @@ def p_blank(x):
     return None
 
 
+def blanked_texts(cases):
+    for text, S, blanks, _strong in cases:
+        new = text.split('\n')
+        for i, b in zip(S, blanks):
+            new[i] = b
+        yield '\n'.join(new)
+
+
 def run(ctx):
     rng = ctx.rng
     cases = []
@@ -120,6 +128,9 @@ def run(ctx):
             large.append((text, el, [rng.choice(BLANKS[:5]) for _ in el], False))
     fails = ctx.prop('prop:blanked-markers', cases, p_blank)
     fails += ctx.prop('prop:blanked-markers:large', large, p_blank)
+    import os
+    fpath = os.path.join(ctx.scratch, 'copyright')
+    fails += [((f[0][1], [], [], False), f[1]) for f in ctx.prop('prop:blanked-markers:file-route', [(fpath, t) for t in dict.fromkeys(blanked_texts(cases[:ctx.n(800, 8000)])) if t.strip() and '\r' not in t], _copy.p_routes_agree)]
     ctx.stream('prop:blanked-markers')['eligible_markers_histogram'] = markers
     texts = []
     for text, S, blanks, _strong in cases[:ctx.n(4000, 50000)]:
